@@ -97,6 +97,8 @@ class C13Irrigation(Monitor):
             tadj = float(g[GX["dap"]]) - self.del_days
         else:
             tadj = float(g[GX["gdd_cum"]]) - self.del_gdd
+        if float(crop.MaxCanopy) > float(crop.Senescence):
+            ctx.hit("max_canopy_after_senescence_start")
         if tadj <= float(crop.Canopy10Pct):
             self.ref_stage = 1
         elif tadj <= float(crop.MaxCanopy):
